@@ -487,7 +487,9 @@ impl DrawExecutor {
         }
 
         // VDI apparently loops over the scan lines from bottom to top
-        for y in (y_min..=y_max).rev() {
+        // (only the scan lines and columns of the canvas can receive pixels)
+        let res = self.get_resolution();
+        for y in (y_min.max(0)..=y_max.min(res.height - 1)).rev() {
             // Set up counter for vector intersections
             let mut intersections = 0;
 
@@ -505,16 +507,16 @@ impl DrawExecutor {
 
                 // Convenience variables for endpoints
 
-                let y1 = points[i * 2 + 1]; // Get Y-coord of 1st endpoint.
-                let y2 = points[next_point * 2 + 1]; // Get Y-coord of 2nd endpoint.
+                let y1 = i64::from(points[i * 2 + 1]); // Get Y-coord of 1st endpoint.
+                let y2 = i64::from(points[next_point * 2 + 1]); // Get Y-coord of 2nd endpoint.
 
                 // Get Y delta of current vector/segment/edge
                 let dy = y2 - y1;
 
                 // If the current vector is horizontal (0), ignore it.
                 // Calculate deltas of each endpoint with current scan line.
-                let dy1 = y - y1;
-                let dy2 = y - y2;
+                let dy1 = i64::from(y) - y1;
+                let dy2 = i64::from(y) - y2;
 
                 // Determine whether the current vector intersects with
                 // the scan line by comparing the Y-deltas we calculated
@@ -524,8 +526,8 @@ impl DrawExecutor {
                 // not intersect and can be ignored.  The origin for this
                 // test is found in Newman and Sproull.
                 if (dy1 ^ dy2) < 0 {
-                    let x1 = points[i * 2]; // Get X-coord of 1st endpoint.
-                    let x2 = points[next_point * 2]; // Get X-coord of 2nd endpoint.
+                    let x1 = i64::from(points[i * 2]); // Get X-coord of 1st endpoint.
+                    let x2 = i64::from(points[next_point * 2]); // Get X-coord of 2nd endpoint.
 
                     // Calculate X delta of current vector
                     let dx = (x2 - x1) << 1; // Left shift so we can round by adding 1 below
@@ -566,11 +568,11 @@ impl DrawExecutor {
             while i > 0 {
                 i -= 1;
                 /* grab a pair of endpoints */
-                let x1 = edge_buffer[j];
-                let x2 = edge_buffer[j + 1];
+                let x1 = edge_buffer[j].max(0);
+                let x2 = edge_buffer[j + 1].min(i64::from(res.width) - 1);
                 // Fill in all pixels horizontally from (x1, y) to (x2, y)
                 for k in x1..=x2 {
-                    self.fill_pixel(k, y);
+                    self.fill_pixel(k as i32, y);
                 }
                 j += 2;
             }
